@@ -5,8 +5,9 @@ import PdfModel.Core.Out
 
   Rust                                                         model
   ----                                                         -----
-  StorageResolver::get (file.rs): chain.contains(key) → bail,   load: `k ∈ chain → err`, `k :: chain`
-    chain.push(key), resolve + T::from_primitive, chain.pop
+  StorageResolver::get (file.rs): chain.contains(key) → bail,   load: `k ∈ chain → err`, `chain.length ≥ maxNest → err`,
+    chain.len() >= MAX_NESTED_GETS → bail, chain.push(key),       `k :: chain`
+    resolve + T::from_primitive, chain.pop
   derive-generated from_primitive of a struct: the typed        loadFields (fold over `fields` in order)
     reference fields (RcRef / MaybeRef / Vec<MaybeRef<_>>)
     are loaded, in declaration order, *inside* the owner's get
@@ -22,6 +23,7 @@ import PdfModel.Core.Out
   PageTree::page / page_limited (types.rs), depth 16            pageLimited / pageLoop (u32 arithmetic, checked)
                                                                  pageLoopOld (unchecked `pos + tree.count`)
   ColorSpace::from_primitive_depth (color.rs), depth 5          csLoad ; csLoadOld (DeviceN restarts the budget)
+  AppearanceStreamEntry::from_primitive_depth (types.rs), 2      apLoad ; apLoadOld (no budget)
   the /Prev loop of Backend::read_xref_table_and_trailer        prevLoop (`seen` list)
 
   Objects live in a table indexed by object number (`List`); a number outside the table is a dangling
@@ -73,11 +75,16 @@ def seqOut (acc : Out Unit) (next : Unit → Out Unit) : Out Unit :=
   | .ok _ => next ()
   | o => o
 
-/-- `StorageResolver::get` with `T::from_primitive` inlined. `chain` is the recursion guard. -/
+/-- `MAX_NESTED_GETS`: how many loads may be in progress inside each other -/
+def maxNest : Nat := 64
+
+/-- `StorageResolver::get` with `T::from_primitive` inlined. `chain` is the recursion guard: a number
+    that is already on it is refused ("Recursive reference"), and so is a 65th nested load. -/
 def load (g : Graph) (tolerant : Bool) : Nat → List Nat → Nat → Out Unit
   | 0, _, _ => .oof
   | fuel + 1, chain, k =>
     if k ∈ chain then .err else
+    if chain.length ≥ maxNest then .err else
     match g[k]? with
     | none => .err
     | some .bad => .err
@@ -294,6 +301,38 @@ def csLoadOld (g : List CObj) : Nat → Nat → Nat → Out Unit
       match depth with
       | 0 => .err
       | _ + 1 => csLoadOld g fuel 5 b
+
+-- ---------------------------------------------------------------------------------------------------
+-- appearance dictionaries
+
+inductive AObj where
+  | stream                    -- a form XObject
+  | dict (vals : List Nat)    -- a dictionary of appearance states, the values given by reference
+  | bad
+deriving Repr, Inhabited
+
+/-- `AppearanceStreamEntry::from_primitive_depth`: the values are *resolved* (no `get`, no guard), the
+    only bound is the depth budget (2 in the code) -/
+def apLoad (g : List AObj) : Nat → Nat → Out Unit
+  | depth, k =>
+    match g[k]? with
+    | none => .err
+    | some .bad => .err
+    | some .stream => .ok ()
+    | some (.dict vals) =>
+      match depth with
+      | 0 => .err
+      | d + 1 => vals.foldl (fun acc v => match acc with | .ok _ => apLoad g d v | o => o) (.ok ())
+
+/-- before the fix: no budget (`fuel` stands for the native stack) -/
+def apLoadOld (g : List AObj) : Nat → Nat → Out Unit
+  | 0, _ => .oof
+  | fuel + 1, k =>
+    match g[k]? with
+    | none => .err
+    | some .bad => .err
+    | some .stream => .ok ()
+    | some (.dict vals) => vals.foldl (fun acc v => match acc with | .ok _ => apLoadOld g fuel v | o => o) (.ok ())
 
 -- ---------------------------------------------------------------------------------------------------
 -- /Prev
